@@ -280,12 +280,15 @@ func (e *env) faultedListing(rng *rand.Rand) {
 }
 
 func body(r *ev.Run) {
-	r.Rule("stores = seeded random histories (pairwise distinct merkle roots; forks at many heights, stale siblings at listed heights, orphans, reorganisations); plus one chain of 2081 blocks (after a reorganisation over 2050 heights) walked with page sizes 1, 499..501, 1000, 1001, 2000, 2001, n-1..n+1, 5000, 10^6, 2^31-1, 2^31, 2^32, 2^40 (these also on every third store, from the start and from a key in the middle); per store: a complete walk for EVERY batch size 1..n+2 (n = longest-chain length), batchSize 0 (must answer 200 or 4xx), every stored merkle root as starting key (longest: the rest of the chain; stale/orphan: 409), unknown keys and near misses of stored roots - upper case, a digit cut or appended, leading zeros cut, 0x-prefixed, byte-reversed - (404), walks after a reorganisation was interrupted by its second relabelling statement failing (heights 0,1,2,... each once, for page sizes 1,2,3,7,1000; compared with the model again after the redelivery), walks with restarts of the service between pages, and walks interleaved with ingestion of 1-3 new tip headers between pages. evaluations = complete walks; distinct = (store index, batch size) walks; non-trivial = store has a stale or orphan header.")
+	r.Rule("stores = seeded random histories (pairwise distinct merkle roots; forks at many heights, stale siblings at listed heights, orphans, reorganisations); plus one chain of 2081 blocks (after a reorganisation over 2050 heights) walked with page sizes 1, 499..501, 1000, 1001, 2000, 2001, n-1..n+1, 5000, 10^6, 2^31-1, 2^31, 2^32, 2^40 (these also on every third store, from the start and from a key in the middle); per store: a complete walk for EVERY batch size 1..n+2 (n = longest-chain length), batchSize 0 (must answer 200 or 4xx), every stored merkle root as starting key (longest: the rest of the chain; stale/orphan: 409), unknown keys and near misses of stored roots - upper case, a digit cut or appended, leading zeros cut, 0x-prefixed, byte-reversed - (404), walks after a reorganisation was interrupted by its second relabelling statement failing (heights 0,1,2,... each once, for page sizes 1,2,3,7,1000; compared with the model again after the redelivery), walks with restarts of the service between pages, walks interleaved with ingestion of 1-3 new tip headers between pages, and walks after two competing children of the tip were submitted by two goroutines at the same moment (that height is visited once). evaluations = complete walks; distinct = (store index, batch size) walks; non-trivial = store has a stale or orphan header.")
 	r.Assume("merkle roots pairwise distinct (as the statement requires)", "interleaved ingestion only extends the tip", "SQLite only")
 	r.Require("complete_walks", 300)
 	r.Require("keys_non_longest_409", 20)
 	mb.ForbiddenHeaders()
 	st, err := rig.New(rig.Options{Dir: r.Scratch, WrapHeaders: deco.Wrap(&deco.Hooks{Before: func(op string, _ bool, _ string) error {
+		if op == "GetTip" || op == "GetHeaderByHash" {
+			pairRendezvous()
+		}
 		if op == "UpdateState" && relabel.armed {
 			relabel.n++
 			if relabel.n == relabel.at {
@@ -419,6 +422,9 @@ func body(r *ev.Run) {
 						r.Count("interleaved_extensions", 1)
 					}
 				})
+			}
+			if i%3 == 1 && !e.failed {
+				e.competingTips(rng, &counter)
 			}
 			if i%2 == 0 && !e.failed {
 				e.faultedListing(rng)
